@@ -462,6 +462,7 @@ def bounded_random(unit, seed, n):
     skipped = 0
     import time as _t
     t_end = _t.time() + float(os.environ.get("PYVC_BOUNDED_SECS", "45"))
+    history = []
     for k in range(n):
         if _t.time() > t_end:
             break
@@ -485,7 +486,9 @@ def bounded_random(unit, seed, n):
         unit.check(P, inp, old, out)
         evals += 1
         if P.failures:
-            failures.append((P.failures, dict(S.log)))
+            # the earlier calls of this process are part of the counterexample when the failure is history-dependent
+            failures.append((P.failures, dict(S.log), unit.shard, list(history)))
             if len(failures) > 5:
                 break
+        history.append(dict(shard=unit.shard, values=dict(S.log)))
     return evals, skipped, failures
